@@ -123,8 +123,18 @@ class NumberedObjectCollection(ABC):
         if not isinstance(pos, int):
             raise TypeError("The index for popping must be an int")
         obj = self._objects.pop(pos)
-        self.__num_cache.pop(obj.number, None)
+        self.__evict(obj)
         return obj
+
+    def __evict(self, obj):
+        """
+        Removes every entry of the number cache that points at the given object.
+
+        The object may have been renumbered since it was cached, so its current
+        number is not enough to find its entries.
+        """
+        for number in [n for n, o in self.__num_cache.items() if o is obj]:
+            del self.__num_cache[number]
 
     def clear(self):
         """
@@ -178,8 +188,8 @@ class NumberedObjectCollection(ABC):
         :param delete: the object to delete
         :type delete: Numbered_MCNP_Object
         """
-        self.__num_cache.pop(delete.number, None)
-        self._objects.remove(delete)
+        obj = self._objects.pop(self._objects.index(delete))
+        self.__evict(obj)
 
     def __iter__(self):
         self._iter = self._objects.__iter__()
@@ -338,9 +348,9 @@ class NumberedObjectCollection(ABC):
         if not isinstance(idx, int):
             raise TypeError("index must be an int")
         obj = self[idx]
-        self.__num_cache.pop(obj.number, None)
         idx = self._objects.index(obj)
         del self._objects[idx]
+        self.__evict(obj)
 
     def __setitem__(self, key, newvalue):
         if not isinstance(key, int):
